@@ -71,12 +71,25 @@ CLAIMS = {
 
 }
 
+# the "decided" text is generated from the rule catalogue so that it always names the rules that exist
+import subprocess
+_rules = json.loads(subprocess.run([os.path.join(ROOT, 'bin', 'tarsverif'), 'list-json'], capture_output=True, text=True).stdout)
+def decided_for(pid):
+    parts = []
+    for r in _rules:
+        if pid in r['props']:
+            title = r['doc'].split(':')[0].split(';')[0]
+            if len(title) > 110: title = title[:107] + '...'
+            parts.append(f"{r['id']}{' (thorough)' if r['thorough'] else ''} {title}")
+    return '; '.join(parts)
+
 checks = []
 na = []
 for p in props:
     pid = p['id']
     if pid in CLAIMS:
-        tech, decided, notdecided = CLAIMS[pid]
+        tech, _hand, notdecided = CLAIMS[pid]
+        decided = decided_for(pid)
         checks.append({
             "property_id": pid,
             "quick_cmd": f"./run.sh {pid} quick",
